@@ -34,6 +34,8 @@ def _const_returns(body):
 def run(ctx):
     facts = ctx.bin
     P = "C16-R1"
+    from .confimm import rule_config_as_loaded
+    rule_config_as_loaded(ctx, facts, "C16-R1")
     wiring = {
         "default_use_cache": ("Config", 1),
         "default_rust_structured": ("RustConfig", 0),
